@@ -33,7 +33,8 @@ RULE = ('type-directed: a random JSON-like target; a spec tree of depth <= 3 (qu
         'position by Val(SKIP/STOP) and by skip_if_odd / stop_if_neg / {stop,skip}_if_{truthy,falsy} callables; 10% of '
         'cases are nested chains: a tuple / Pipe of str paths and plain callables placed directly as a step of a '
         'tuple / Pipe (0-2 steps before it, 1-3 after it) with a callable that returns SKIP / STOP for the value it '
-        'receives at a random position of the inner chain; ~12% of accesses are invalid. Every '
+        'receives at a random position of the inner chain; 7% are containers with T leaves in argument position (Call '
+        'args / kwargs, Coalesce default, ...) evaluated per record of a list of distinct records; ~12% of accesses are invalid. Every '
         'callable is an instrumented catalogue function with a unique name, so the ordered call log is observed. '
         'non-trivial = spec has >= 3 nodes; distinct = distinct (target, spec)')
 TRUSTED = ['Python primitives (==, truthiness, hashing, iteration, int(), the catalogue callables) are parameters of the '
@@ -48,7 +49,13 @@ def generate(rng, tier, scale, **focus):
         g = Gen(rng, {'extra': ['ref', 'nestchain']})
         t = g.target()
         depth = rng.choice([1, 2, 2, 3]) if tier == 'quick' else rng.choice([2, 3, 3, 4])
-        if rng.random() < 0.1:
+        q = rng.random()
+        if q < 0.07:
+            # containers with T leaves in argument position (Call args / kwargs, Coalesce default, ..) evaluated
+            # once per record of a list of distinct records: each evaluation uses the current target
+            t = Gen.rows_target(rng)
+            spec = g.s_argshape(t, 2)
+        elif q < 0.17:
             # a chain of plain steps (str paths, plain callables) nested directly in a tuple / Pipe, a
             # SKIP / STOP-returning callable at a random position of the inner chain, outer steps after it
             spec = g.s_nestchain(t, rng.choice([0, 1]))
